@@ -17,6 +17,7 @@ package main
 // delivered=1 for every case.
 
 import (
+	"context"
 	"fmt"
 	"strconv"
 	"sync/atomic"
@@ -35,7 +36,7 @@ func genNextRet(tier string, seed int64, only string) []*Case {
 		reps = 10
 	}
 	for r := 0; r < reps; r++ {
-		for _, scen := range []string{"unicast", "groupby", "publish", "behavior", "replay"} {
+		for _, scen := range []string{"unicast", "groupby", "publish", "behavior", "replay", "flatmap"} {
 			if only != "" && only != scen {
 				continue
 			}
@@ -48,8 +49,54 @@ func genNextRet(tier string, seed int64, only string) []*Case {
 	return out
 }
 
+// scen=flatmap / concatmap: the projection returns an inner observable that emits from a goroutine of its own AFTER its
+// Subscribe has returned; FlatMap (= ConcatAll over the projected observables) keeps the producer inside Next until that inner
+// observable has terminated, so when Next returns both inner values have reached the observer.
+func runNextRetFlat(c *Case) string {
+	k, _ := strconv.Atoi(c.get("backlog", "2"))
+	inner := func(base int) ro.Observable[int] {
+		return ro.NewUnsafeObservableWithContext(func(ctx context.Context, dest ro.Observer[int]) ro.Teardown {
+			go func() {
+				for j := 0; j < k; j++ {
+					time.Sleep(300 * time.Microsecond)
+					dest.NextWithContext(ctx, base*10+j)
+				}
+				dest.CompleteWithContext(ctx)
+			}()
+			return nil
+		})
+	}
+	probe := &Probe{}
+	var seen int32
+	ro.FlatMap(func(v int) ro.Observable[int] { return inner(v) })(probe.Observable()).Subscribe(
+		ro.NewObserver(func(int) { atomic.AddInt32(&seen, 1) }, func(error) {}, func() {}))
+	probe.mu.Lock()
+	dest, ctx := probe.dest, probe.subCtx
+	probe.mu.Unlock()
+	if dest == nil {
+		return "res " + c.id + " _flag=no-source-subscription"
+	}
+	early, delivered := 0, int32(1)
+	for v := 1; v <= 3; v++ {
+		ret := make(chan int32, 1)
+		go func(v int) { dest.NextWithContext(ctx, v); ret <- atomic.LoadInt32(&seen) }(v)
+		select {
+		case n := <-ret:
+			if int(n) < v*k { // returned before the outputs of this value were delivered
+				early, delivered = 1, 0
+			}
+		case <-time.After(2 * time.Second):
+			return "res " + c.id + " _flag=next-never-returned"
+		}
+	}
+	return fmt.Sprintf("res %s early=%d delivered=%d order=ok", c.id, early, delivered)
+}
+
 func runNextRet(c *Case) string {
 	setRecorder(nil)
+	if c.get("scen", "") == "flatmap" {
+		return runNextRetFlat(c)
+	}
 	k, _ := strconv.Atoi(c.get("backlog", "1"))
 	gate := make(chan struct{})
 	entered := make(chan struct{}, 1)
